@@ -8,13 +8,22 @@ package main
 import (
 	"bufio"
 	"bytes"
+	"encoding/hex"
+	"errors"
 	"fmt"
+	"io"
 	"regexp"
+	"sort"
 	"strconv"
 	"strings"
+	"testing/iotest"
 
 	"verifharness/h"
 )
+
+type errReader struct{}
+
+func (errReader) Read([]byte) (int, error) { return 0, errors.New("source failed") }
 
 func goSemString(r *h.Rand) string {
 	n := r.Intn(9)
@@ -72,7 +81,70 @@ func goSemCases(cx *ctx) {
 				}
 				return "0"
 			}
-			switch rr2.Intn(12) {
+			switch rr2.Intn(15) {
+			case 12:
+				var xs, hs []string
+				for i := rr2.Intn(6); i > 0; i-- {
+					x := goSemString(rr2)
+					if rr2.Intn(3) == 0 {
+						x = []string{"", "a", "ab", "b", "a\x00", "\xff", "A"}[rr2.Intn(7)]
+					}
+					xs = append(xs, x)
+				}
+				enc := func(x string) string {
+					if x == "" {
+						return "e"
+					}
+					return hex.EncodeToString([]byte(x))
+				}
+				for _, x := range xs {
+					hs = append(hs, enc(x))
+				}
+				if len(xs) == 0 {
+					return nil
+				}
+				sorted := append([]string(nil), xs...)
+				sort.Strings(sorted)
+				var out []string
+				for _, x := range sorted {
+					out = append(out, enc(x))
+				}
+				return &h.Case{Kind: "gosem-sort", Line: "gosort " + strings.Join(hs, ","), Impl: strings.Join(out, ","), NonTrivial: true}
+			case 13:
+				data := rr2.Bytes(rr2.Intn(12))
+				fail := rr2.Bool()
+				n := rr2.Intn(14)
+				var src io.Reader = bytes.NewReader(data)
+				if fail {
+					src = io.MultiReader(bytes.NewReader(data), errReader{})
+				}
+				if rr2.Bool() {
+					src = iotest.OneByteReader(src)
+				}
+				buf := make([]byte, n)
+				k, err := io.ReadFull(src, buf)
+				cls := "nil"
+				switch {
+				case err == io.EOF:
+					cls = "eof"
+				case err == io.ErrUnexpectedEOF:
+					cls = "unexpected"
+				case err != nil:
+					cls = "src"
+				}
+				rest := len(data) - k
+				return &h.Case{Kind: "gosem-readfull", Line: fmt.Sprintf("goreadfull %s %s %d", h.Hex(data), bit(fail), n),
+					Impl: fmt.Sprintf("%s %s rest=%d", h.Hex(buf[:k]), cls, rest), NonTrivial: true}
+			case 14:
+				data := []byte(s)
+				delim := byte('\n')
+				br := bufio.NewReader(bytes.NewReader(data))
+				line, err := br.ReadBytes(delim)
+				cls := "nil"
+				if err != nil {
+					cls = "eof"
+				}
+				return &h.Case{Kind: "gosem-bufread", Line: "gobufread " + h.Hex(data) + " 0a", Impl: fmt.Sprintf("%s %s rest=%d", h.Hex(line), cls, len(data)-len(line)), NonTrivial: true}
 			case 9:
 				ws := []string{"5", "05", "+5", "-5", "", "18", "9223372036854775807", "9223372036854775808", "-9223372036854775808", "-9223372036854775809",
 					"18446744073709551621", "1_0", "0x10", " 5", "5 ", "٥", "+", "-", "00", "1e1", "123456789012345678901234567890"}
